@@ -458,6 +458,16 @@ public:
     {
       return; // silent no-op on absent key
     }
+    {
+      // An expired-not-yet-evicted key is absent for every reader (lazy-read
+      // backstop); treat it as absent here too, otherwise a future 'when'
+      // would bring the expired key back depending on eviction timing.
+      auto eit = _expiry.find(key);
+      if (eit != _expiry.end() && eit->second.expiry <= std::chrono::system_clock::now())
+      {
+        return;
+      }
+    }
     startTtlOrCleanup(lock);
 
     cancelTimerLocked(key);
@@ -525,9 +535,14 @@ public:
     {
       return; // absent
     }
-    if (_expiry.find(key) == _expiry.end())
+    auto eit = _expiry.find(key);
+    if (eit == _expiry.end())
     {
       return; // already permanent
+    }
+    if (eit->second.expiry <= std::chrono::system_clock::now())
+    {
+      return; // expired-not-yet-evicted: absent for every reader, do not revive it
     }
 
     cancelTimerLocked(key);
